@@ -62,6 +62,14 @@ def cache_invariant(cache):
     for k, e in cache.cache.items():
         if e.obj_size > cache.memory_cache_bytes:
             bad.append(("entry larger than the budget is resident", "%s size %r" % (k, e.obj_size)))
+        # attribution: what is booked for an entry is the code's own estimate of what the entry holds
+        # (only for value kinds whose estimate is exact and repeatable)
+        if isinstance(getattr(e, "value", None), (type(None), str, bytes, int, float, bool)) and hasattr(e, "value"):
+            est = cache._estimate_object_size(e.value)
+            if e.obj_size != est:
+                bad.append(("size booked for a resident entry differs from the estimate of the value it holds",
+                            "%s booked %r, the cache's own estimate of the resident %s is %r"
+                            % (k, e.obj_size, type(e.value).__name__, est)))
     dq = list(cache.lru_deque)
     if len(dq) != len(set(dq)) or set(dq) != set(cache.cache.keys()):
         bad.append(("LRU queue and entry table disagree", "queue=%r table=%r" % (dq, sorted(cache.cache))))
